@@ -136,6 +136,8 @@ class Rat:
         return None
 
     def __add__(self, o):
+        if getattr(o, "_abs_native", False):
+            return NotImplemented
         o = lift(o)
         if self.den == o.den:
             return Rat(_poly_add(self.num, o.num), self.den, self.reduced or o.reduced)
@@ -148,12 +150,16 @@ class Rat:
         return Rat({m: -c for m, c in self.num.items()}, self.den, self.reduced)
 
     def __sub__(self, o):
+        if getattr(o, "_abs_native", False):
+            return NotImplemented
         return self + (-lift(o))
 
     def __rsub__(self, o):
         return lift(o) - self
 
     def __mul__(self, o):
+        if getattr(o, "_abs_native", False):
+            return NotImplemented
         o = lift(o)
         return Rat(_poly_mul(self.num, o.num), _poly_mul(self.den, o.den), self.reduced or o.reduced)
 
@@ -165,6 +171,8 @@ class Rat:
         return Rat(self.den, self.num, self.reduced)
 
     def __truediv__(self, o):
+        if getattr(o, "_abs_native", False):
+            return NotImplemented
         return self * lift(o).inv()
 
     def __rtruediv__(self, o):
